@@ -22,10 +22,10 @@
 EXTENDS Naturals, Integers, Sequences, FiniteSets
 
 VARIABLES stream, total, cur, off,      \* part 1
-          view, vc, sent                \* part 2
+          view, vc, sent, wp            \* part 2 (sent = content of the sink, wp = write position)
 
 wireVars == <<stream, total, cur, off>>
-viewVars == <<view, vc, sent>>
+viewVars == <<view, vc, sent, wp>>
 
 Range_(s) == { s[i] : i \in 1..Len(s) }
 
@@ -37,7 +37,7 @@ ValEq(a, b, unordered) ==
 EmptyView == [kind |-> "arr", arr |-> <<>>]
 
 WireInit == /\ stream = <<>> /\ total = 0 /\ cur = 1 /\ off = 0
-            /\ view = EmptyView /\ vc = 0 /\ sent = <<>>
+            /\ view = EmptyView /\ vc = 0 /\ sent = <<>> /\ wp = 0
 
 (* ------------------------------------------------------------------ part 1 *)
 
@@ -89,6 +89,13 @@ EncodedLen(v, r) ==
 (* the byte image the writer produced is as long as the sum of the record sizes      *)
 Total(r) == r = total /\ UNCHANGED <<wireVars, viewVars>>
 
+(* a size-class predicate ("fits in k bytes") must agree with the bytes produced     *)
+FitsIn(v, k, r) ==
+    /\ Len(stream) > 0
+    /\ stream[Len(stream)].v = v
+    /\ r = (stream[Len(stream)].n <= k)
+    /\ UNCHANGED <<wireVars, viewVars>>
+
 (* the accelerated / batch output is byte-identical to the scalar one; both are     *)
 (* logged (byte arrays or digests [len, h])                                         *)
 BatchEqualsScalar(batch, scalar) ==
@@ -110,6 +117,14 @@ ReadField(v, present, consumed, at, wv, fv, rv, mx) ==
     /\ present = (VGe(wv, fv) /\ VGe(rv, fv) /\ (Len(mx) = 1 => VGe(mx[1], wv)))
     /\ present => v = stream[cur].v
     /\ Advance
+
+(* the version predicates the field mechanism is built from (a, b = versions, mx as  *)
+(* above): "supports" a >= b; "compatible" same major and a >= b; "proxy" b <= a <= mx *)
+VersionPred(kind, a, b, mx, r) ==
+    /\ r = CASE kind = "supports"   -> VGe(a, b)
+              [] kind = "compatible" -> (a[1] = b[1] /\ VGe(a, b))
+              [] kind = "proxy"      -> (VGe(a, b) /\ (Len(mx) = 1 => VGe(mx[1], a)))
+    /\ UNCHANGED <<wireVars, viewVars>>
 
 (* ------------------------------------------------------------------ part 2 *)
 
@@ -141,7 +156,7 @@ Open(src, ranges) ==
                ELSE [kind |-> "pat", a |-> src.a, b |-> src.b,
                      off |-> ranges[1][1], len |-> ranges[1][2] - ranges[1][1]]
     /\ (src.kind = "pat" => Len(ranges) = 1)
-    /\ vc' = 0 /\ sent' = <<>>
+    /\ vc' = 0 /\ sent' = <<>> /\ wp' = 0
     /\ UNCHANGED wireVars
 
 (* read(buf) with |buf| = k returned the bytes `got`: a prefix of what is left,     *)
@@ -153,13 +168,18 @@ ReadN(k, got) ==
     /\ got = Slice(vc, g)
     /\ g = 0 => (k = 0 \/ vc = VLen)
     /\ vc' = vc + g
-    /\ UNCHANGED <<view, sent, wireVars>>
+    /\ UNCHANGED <<view, sent, wp, wireVars>>
 
 (* an exact read (read_exact / read_slice / read_bytes): all k bytes or a refusal   *)
 ReadExact(k, got) == Len(got) = k /\ ReadN(k, got)
 
-(* Err / None: nothing is consumed *)
-ReadNRefused == UNCHANGED <<viewVars, wireVars>>
+(* Err / None: nothing is consumed.  need >= 0: the operation is TOTAL on this back end *)
+(* (slice / mmap / range readers: exact reads and skips inside the view cannot fail), so  *)
+(* a refusal is accepted only if fewer than `need` bytes are left; need = -1: a buffering *)
+(* reader may refuse (capacity, short inner reads, unsupported look-ahead).               *)
+ReadNRefused(need) ==
+    /\ need >= 0 => vc + need > VLen
+    /\ UNCHANGED <<viewVars, wireVars>>
 
 (* a look-ahead: a correct prefix of what is left; nothing is consumed *)
 Peek(k, got) ==
@@ -172,7 +192,7 @@ Peek(k, got) ==
 (* skip / advance / consume k bytes *)
 Skip(k) == /\ vc + k <= VLen
            /\ vc' = vc + k
-           /\ UNCHANGED <<view, sent, wireVars>>
+           /\ UNCHANGED <<view, sent, wp, wireVars>>
 
 (* seek inside the range; the driver only asks for targets inside [0, VLen];        *)
 (* r = the position the implementation reports (relative to the range start)        *)
@@ -184,27 +204,46 @@ SeekTo(whence, o, r) ==
     /\ 0 <= t /\ t <= VLen
     /\ r = t
     /\ vc' = t
-    /\ UNCHANGED <<view, sent, wireVars>>
+    /\ UNCHANGED <<view, sent, wp, wireVars>>
 
 (* observers *)
 Pos(r) == r = vc /\ UNCHANGED <<viewVars, wireVars>>
 Remaining(r) == r = VLen - vc /\ UNCHANGED <<viewVars, wireVars>>
+VLenIs(r) == r = VLen /\ UNCHANGED <<viewVars, wireVars>>
+AtEnd(r) == r = (vc = VLen) /\ UNCHANGED <<viewVars, wireVars>>
 
 (* a FIFO byte buffer: bytes committed by the producer extend the view *)
 Extend(data) ==
     /\ view.kind = "arr"
     /\ view' = [kind |-> "arr", arr |-> view.arr \o data]
-    /\ UNCHANGED <<vc, sent, wireVars>>
+    /\ UNCHANGED <<vc, sent, wp, wireVars>>
 (* compaction / maintenance must not change what is readable *)
 Maintain == UNCHANGED <<viewVars, wireVars>>
 
-(* writer back ends: write(data) accepted r bytes (a prefix); cap = capacity of the *)
-(* target range (-1 = unbounded)                                                    *)
+(* writer back ends: write(data) accepted r bytes (a prefix) at the write position   *)
+(* wp (the end of the sink unless the writer was repositioned): they overwrite /      *)
+(* extend the sink there; cap = capacity of the target range (-1 = unbounded)         *)
+Overwrite(s, p, d) ==
+    [i \in 1..(IF p + Len(d) > Len(s) THEN p + Len(d) ELSE Len(s)) |->
+        IF i > p /\ i <= p + Len(d) THEN d[i - p] ELSE s[i]]
 Accept(data, r, cap) ==
     /\ 0 <= r /\ r <= Len(data)
-    /\ cap >= 0 => Len(sent) + r <= cap
-    /\ sent' = sent \o SubSeq(data, 1, r)
+    /\ cap >= 0 => wp + r <= cap
+    /\ sent' = Overwrite(sent, wp, SubSeq(data, 1, r))
+    /\ wp' = wp + r
     /\ UNCHANGED <<view, vc, wireVars>>
+(* reposition a seekable writer inside what was written so far; r = reported position *)
+SeekW(whence, o, r) ==
+    LET t == CASE whence = "start" -> o
+               [] whence = "cur"   -> wp + o
+               [] whence = "end"   -> Len(sent) + o IN
+    /\ 0 <= t /\ t <= Len(sent)
+    /\ r = t
+    /\ wp' = t
+    /\ UNCHANGED <<view, vc, sent, wireVars>>
+(* observers of a writer: position and room left in a bounded target *)
+SinkPos(r) == r = wp /\ UNCHANGED <<viewVars, wireVars>>
+SinkRemaining(r, cap) == r = cap - wp /\ UNCHANGED <<viewVars, wireVars>>
 (* after flush the sink holds exactly the accepted bytes (got = the sink, or the    *)
 (* target window of the sink); what lies outside the window is untouched            *)
 Sink(got, outsideBefore, outsideAfter) ==
@@ -216,4 +255,5 @@ Sink(got, outsideBefore, outsideAfter) ==
 WireTypeOK == /\ cur \in 1..(Len(stream) + 1)
               /\ off <= total
               /\ vc \in 0..VLen
+              /\ wp \in 0..Len(sent)
 =============================================================================
